@@ -278,6 +278,28 @@ func ecrecoverJobs(c *vh.Check) []job {
 		cases = append(cases, rc{tag + "/r=0", m, big.NewInt(0), s, v, 0, 0, inf(), false, true})
 		cases = append(cases, rc{tag + "/s=0", m, r, big.NewInt(0), v, 0, 0, Q, false, true})
 	}
+	// the boundary of the strict range, made by the signer: fix d and k, r = x([k]G), choose s and
+	// solve the (already hashed) message m = s*k - r*d: s = (n-1)/2 is the largest low s, s = (n+1)/2 the
+	// smallest high one
+	{
+		k := new(big.Int).Mod(new(big.Int).Add(genericT, big.NewInt(4242)), n)
+		R := ref.mul(ref.G, k)
+		r := new(big.Int).Mod(R.X, n)
+		v := int(R.Y.Bit(0))
+		for _, b := range []struct {
+			name string
+			s    *big.Int
+			low  bool
+		}{{"s=(n-1)/2", half, true}, {"s=(n+1)/2", new(big.Int).Add(half, big.NewInt(1)), false}, {"s=(n-3)/2", new(big.Int).Sub(half, big.NewInt(1)), true}} {
+			mm := new(big.Int).Mul(b.s, k)
+			mm.Sub(mm, new(big.Int).Mul(r, d)).Mod(mm, n)
+			if q, ok := refRecover(mm, r, b.s, v); !ok || !q.eq(Q) {
+				c.Fatal("ecrecover boundary case %s: the reference does not recover the signer's key", b.name)
+			}
+			cases = append(cases, rc{"boundary/" + b.name + "/strict", mm, r, b.s, v, 1, 0, Q, b.low, true})
+			cases = append(cases, rc{"boundary/" + b.name + "/nonstrict", mm, r, b.s, v, 0, 0, Q, true, true})
+		}
+	}
 	// r not an x coordinate (quadratic non-residue): failure must be claimed, output (0,0)
 	for x := int64(1); x < 50; x++ {
 		r := big.NewInt(x)
